@@ -10,4 +10,5 @@ QTY_TRUSTED = COMMON_TRUSTED + [
     "Lean's Float operations and Rust's f64 operations are the platform's binary64 operations; f64::powi is "
     "LLVM's __powidf2 (mirrored), powf is libm pow on both sides",
     "num-rational (Ratio<i128> arithmetic and to_f64) is not modelled beyond exact rational arithmetic (no i128 overflow)",
+    "tools/gen_units.py + harness binary dump_units regenerate Gen/UnitTable.lean from a real session on every run; Oblig/UnitTable.lean re-proves (decide +kernel) that the prelude table is well-founded with positive finite factors, i.e. that the hypotheses WF and PosTbl hold for the prelude table read in ℝ",
 ]
